@@ -28,8 +28,60 @@ Definition decl_doms (prev : list stmt) : list (pstr * Z) :=
                      end) prev.
 Definition decl_strands (prev : list stmt) : list (pstr * list pstr) :=
   flat_map (fun s => match s with SComp n ds => [(n, ds)] | _ => [] end) prev.
-Definition decl_cplx (prev : list stmt) : list (pstr * (list pstr * list chr)) :=
-  flat_map (fun s => match s with SKer n names sst _ => [(n, (names, sst))] | _ => [] end) prev.
+(* a complex in strand notation: the domain names of the named strands joined by '+' *)
+Definition joinp (dss : list (list pstr)) : list pstr :=
+  match dss with
+  | [] => []
+  | d :: r => fold_left (fun a b => a ++ [sPlus] ++ b) r d
+  end.
+Definition ssc_names (prev : list stmt) (ss : list pstr) : option (list pstr) :=
+  match omap' (fun s => assoc s (decl_strands prev)) ss with
+  | Some (d :: r) => Some (joinp (d :: r))
+  | _ => None
+  end.
+Definition no_space (sst : list chr) : list chr := filter (fun c => negb (N.eqb c 32%N)) sst.
+(* the names under which domain objects may be filed *)
+Definition dom_names (prev : list stmt) : list pstr :=
+  flat_map (fun xl : pstr * Z => [fst xl; star (fst xl)]) (decl_doms prev).
+
+(* what a name of a kernel string stands for (read_pil_line, the kernel branch): '+', a declared domain, the
+   domains of a declared strand (composite domain), or the complements, in reverse order, of the domains of
+   the strand whose complement name it is *)
+Definition res_name (prev : list stmt) (x : pstr) : option (list pstr) :=
+  if str_eqb x sPlus then Some [x]
+  else if existsb (str_eqb x) (dom_names prev) then Some [x]
+  else match assoc x (decl_strands prev) with
+       | Some (d :: ds) => Some (d :: ds)
+       | Some [] => None
+       | None =>
+           if starred x then
+             match assoc (removelast x) (decl_strands prev) with
+             | Some (d :: ds) => if starred (removelast x) then None else Some (map cname_of (rev (d :: ds)))
+             | _ => None
+             end
+           else None
+       end.
+Definition expand_ker (prev : list stmt) (names : list pstr) (sst : list chr) : option (list pstr * list chr) :=
+  if Nat.eqb (length names) (length sst) then
+    match omap' (fun xc : pstr * chr => option_map (map (fun d => (d, snd xc))) (res_name prev (fst xc))) (combine names sst) with
+    | Some parts => Some (map fst (concat parts), map snd (concat parts))
+    | None => None
+    end
+  else None.
+
+(* the (sequence, structure) a complex statement denotes after the statements `pre` *)
+Definition cplx_entry (pre : list stmt) (s : stmt) : list (pstr * (list pstr * list chr)) :=
+  match s with
+  | SKer n names sst _ => [(n, match expand_ker pre names sst with Some x => x | None => ([], []) end)]
+  | SSC n ss sst => [(n, (match ssc_names pre ss with Some x => x | None => [] end, no_space sst))]
+  | _ => []
+  end.
+Fixpoint decl_cplx_from (pre rest : list stmt) : list (pstr * (list pstr * list chr)) :=
+  match rest with
+  | [] => []
+  | s :: r => cplx_entry pre s ++ decl_cplx_from (pre ++ [s]) r
+  end.
+Definition decl_cplx (prev : list stmt) : list (pstr * (list pstr * list chr)) := decl_cplx_from [] prev.
 Definition decl_macs (prev : list stmt) : list (pstr * list pstr) :=
   flat_map (fun s => match s with SMac n xs => [(n, xs)] | _ => [] end) prev.
 Definition decl_rxns (prev : list stmt) : list rinfo :=
@@ -57,7 +109,7 @@ Definition is_cond (t : option pstr) : bool := is_s t sCondensed.
 (* the names under which objects of a kind may be filed *)
 Definition declared (k : kind) (prev : list stmt) : list pstr :=
   match k with
-  | KindD => flat_map (fun xl => [fst xl; star (fst xl)]) (decl_doms prev)
+  | KindD => dom_names prev
   | KindS => map fst (decl_strands prev)
   | KindC => map fst (decl_cplx prev)
   | KindM => map fst (decl_macs prev)
@@ -125,20 +177,23 @@ Definition sig_differsb (a b : option (key * pstr)) : bool :=
 Definition admb (prev : list stmt) (s : stmt) : bool :=
   match s with
   | SDl x l =>
-      negb (starred x) && nonempty x && (0 <=? l)%Z && negb (mem_str x (map fst (decl_doms prev)))
+      negb (starred x) && nonempty x && negb (str_eqb x sPlus) && (0 <=? l)%Z && negb (mem_str x (map fst (decl_doms prev)))
   | SSl x sq chk =>
-      negb (starred x) && nonempty x && negb (mem_str x (map fst (decl_doms prev))) &&
+      negb (starred x) && nonempty x && negb (str_eqb x sPlus) && negb (mem_str x (map fst (decl_doms prev))) &&
       match chk with Some n => Z.eqb n (Z.of_nat (length sq)) | None => true end &&
       match Iupac.reverse_wc_complement false sq with Ok _ => true | Err _ => false end
   | SComp n ds =>
-      nonempty n && negb (mem_str n (map fst (decl_strands prev))) &&
+      nonempty n && negb (starred n) && negb (mem_str n (map fst (decl_strands prev))) &&
       negb (existsb (list_eqb str_eqb ds) (map snd (decl_strands prev))) &&
       forallb (fun d => mem_str d (declared KindD prev)) ds
   | SKer n names sst _ =>
-      nonempty n && negb (mem_str n (map fst (decl_cplx prev))) && Nat.eqb (length names) (length sst) &&
-      forallb (fun x => str_eqb x sPlus || mem_str x (declared KindD prev)) names &&
-      match rot_dict names sst with
-      | Some cdict => match canon_of cdict with Some _ => rot_disjointb prev cdict | None => false end
+      nonempty n && negb (mem_str n (map fst (decl_cplx prev))) &&
+      match expand_ker prev names sst with
+      | Some (names', sst') =>
+          match rot_dict names' sst' with
+          | Some cdict => match canon_of cdict with Some _ => rot_disjointb prev cdict | None => false end
+          | None => false
+          end
       | None => false
       end
   | SMac n xs =>
@@ -150,7 +205,18 @@ Definition admb (prev : list stmt) (s : stmt) : bool :=
       forallb (fun x => mem_str x (mdecl (is_cond (ri_type ri)) prev)) (ri_reactants ri) &&
       forallb (fun x => mem_str x (mdecl (is_cond (ri_type ri)) prev)) (ri_products ri) &&
       forallb (fun ri' => sig_differsb (rxn_sig prev ri') (rxn_sig prev ri)) (decl_rxns prev)
-  | SSC _ _ _ => false
+  | SSC n ss sst =>
+      nonempty n && negb (mem_str n (map fst (decl_cplx prev))) &&
+      forallb (fun x => nonempty x && mem_str x (map fst (decl_strands prev))) ss &&
+      match ssc_names prev ss with
+      | Some names =>
+          Nat.eqb (length names) (length (no_space sst)) &&
+          match rot_dict names (no_space sst) with
+          | Some cdict => match canon_of cdict with Some _ => rot_disjointb prev cdict | None => false end
+          | None => false
+          end
+      | None => false
+      end
   | SOther => true
   end.
 
